@@ -109,6 +109,10 @@ class CalleeGen:
             f = self.formals[0]
             f.update(kind="svar", actual=free_scal.pop(), definable=True, rank=0)
             f.pop("dims", None)
+        if self.o.get("func"):
+            for f in self.formals:            # a function referenced in an expression must not define its arguments
+                f["definable"] = False
+            return
         if not any(f["definable"] for f in self.formals):
             f = self.formals[0]
             f.update(kind="svar", actual=(free_scal.pop() if free_scal else "t"), definable=True, rank=0)
@@ -130,7 +134,7 @@ class CalleeGen:
             if cl:
                 pool.remove(cl[0])
                 pool.insert(0, cl[0])
-        if self.o.get("outer") or self.o.get("loopvar") or self.o.get("clash"):
+        if self.o.get("outer") or self.o.get("loopvar") or self.o.get("clash") or self.o.get("func"):
             ns = max(ns, 1)     # loopvar: the DO-variable formal is not assignable inside its loop; keep a target
         self.lscal = pool[:ns]
         pool = pool[ns:]
@@ -183,9 +187,9 @@ class CalleeGen:
         for f in self.formals:
             if f["rank"] == 0 and f["definable"]:
                 cands += [f["name"]] * 2
-            elif f["rank"] == 1:
+            elif f["rank"] == 1 and not self.o.get("func"):
                 cands.append(f"{f['name']}({self.aidx(f['lo'][0], live)})")
-            elif f["rank"] == 2:
+            elif f["rank"] == 2 and not self.o.get("func"):
                 cands.append(f"{f['name']}({self.aidx(f['lo'][0], live)}, {self.aidx(f['lo'][1], live)})")
         cands += self.init_done
         for nm, lo in self.larr_done:
@@ -253,7 +257,7 @@ class CalleeGen:
             if f["rank"] == 0:
                 decl.append(f"    integer, intent({intent}) :: {f['name']}")
             else:
-                decl.append(f"    integer, dimension({f['dims']}), intent(inout) :: {f['name']}")
+                decl.append(f"    integer, dimension({f['dims']}), intent({'in' if self.o.get('func') else 'inout'}) :: {f['name']}")
         for nm in self.lscal:
             if self.o.get("static") and nm == self.lscal[0]:
                 decl.append(f"    integer :: {nm} = 3")
@@ -279,6 +283,8 @@ class CalleeGen:
             sv = [f for f in self.formals if f["kind"] == "svar"]
             if sv:
                 v = sv[0]["name"]
+                if r.random() < 0.3 and not any("mm" in f["actual"] for f in self.formals):
+                    sv[0]["actual"] = "mm(0, 7)"     # DO-variable dummy associated with an element: must be refused
                 sv[0]["definable"] = False           # a DO variable must not be redefined inside its loop
                 body.append(f"    do {v} = 1, 3")
                 body += self.stmts(r.randint(1, 2), [], "      ", 2)
@@ -305,6 +311,11 @@ class CalleeGen:
             af = [f for f in self.formals if f["rank"] == 1]
             if af:
                 args = ", ".join(("c + 1" if f is af[0] else f["actual"]) for f in self.formals)
+        if self.o.get("func"):
+            body.append(f"    s = {self.expr([])}")
+            sub = [f"  function s({names})", "    integer :: s"] + decl + body + ["  end function s"]
+            use = r.choice(["t = t + s({a}) * 2", "a(i) = s({a})", "n = s({a}) - t", "c(j) = max(s({a}), k)"])
+            return sub, use.format(a=args)
         sub = [f"  subroutine s({names})"] + decl + body + ["  end subroutine s"]
         return sub, f"call s({args})"
 
@@ -327,6 +338,8 @@ def gen_case(rng):
         kind, opts = "outer", {"outer": True}
     elif x < 0.84:
         kind, opts = "fresh", {"clash": True}
+    elif x < 0.92:
+        kind, opts = "func", {"func": True}
     else:
         kind = r.choice(["static", "stride", "nargs", "rank", "container", "arrayexpr"])
         opts = {kind: True}
